@@ -30,13 +30,14 @@ Lemma ztake_len j a : 0 <= j -> len (ztake j a) = Z.min j (len a).
 Proof. intros H. unfold ztake, len. rewrite firstn_length. lia. Qed.
 
 (* ---------------------------------------------------------------- the abstract reader *)
-Inductive lres := LDeliver (it : item) (items : list item) (j : Z) | LEnd.
+(* LCont: the messages are exhausted with j bytes of what follows them (the tail) left *)
+Inductive lres := LDeliver (it : item) (items : list item) (j : Z) | LEnd | LCont (j : Z).
 
 Fixpoint lg_read (mn : Z) (it : item) (items : list item) (j : Z) {struct items} : lres :=
   if j <? len (mb (snd it)) then LEnd
   else if r_off (snd it) <? mn then
     match items with
-    | [] => LEnd
+    | [] => LCont (j - len (mb (snd it)))
     | it2 :: t =>
       let j' := j - len (mb (snd it)) in
       if j' <? len (mh (fst it2) (snd it2)) then LEnd
@@ -46,17 +47,18 @@ Fixpoint lg_read (mn : Z) (it : item) (items : list item) (j : Z) {struct items}
 
 Definition lg_bnd (mn : Z) (items : list item) (j : Z) : lres :=
   match items with
-  | [] => LEnd
+  | [] => LCont j
   | it :: t => if j <? len (mh (fst it) (snd it)) then LEnd else lg_read mn it t (j - len (mh (fst it) (snd it)))
   end.
 
 Section Run.
 Variable decomp : Z -> list N -> option (list N).
+Variable tl : list N.    (* what follows the messages in the response (v2 batches, or nothing) *)
 
 Definition in_st (it : item) (items : list item) (j el : Z) : msr :=
-  st (ztake j (mb (snd it) ++ stream items)) 1 (mhdr (fst it) (snd it)) 1 el.
+  st (ztake j (mb (snd it) ++ stream items ++ tl)) 1 (mhdr (fst it) (snd it)) 1 el.
 Definition bnd_st (items : list item) (j : Z) (h : hdr) (el : Z) : msr :=
-  st (ztake j (stream items)) 0 h 1 el.
+  st (ztake j (stream items ++ tl)) 0 h 1 el.
 
 Definition vals (it : item) : Z * Z * list N * list N :=
   (r_off (snd it), r_ts (snd it), opt_bytes (r_key (snd it)), opt_bytes (r_val (snd it))).
@@ -91,8 +93,8 @@ Qed.
 Lemma mark_read_st i h lr el : mark_read (st i 1 h lr el) = MOk tt (st i 0 h lr el).
 Proof. reflexivity. Qed.
 
-Lemma stream_cons it t : stream (it :: t) = mh (fst it) (snd it) ++ mb (snd it) ++ stream t.
-Proof. unfold stream. cbn [flat_map]. unfold enc_item. rewrite <- app_assoc. reflexivity. Qed.
+Lemma stream_cons it t : stream (it :: t) ++ tl = mh (fst it) (snd it) ++ mb (snd it) ++ stream t ++ tl.
+Proof. unfold stream. cbn [flat_map]. unfold enc_item. rewrite <- !app_assoc. reflexivity. Qed.
 
 (* the body of one iteration on a message whose header is current *)
 Lemma v1_body_spec again mn it items j el :
@@ -133,7 +135,7 @@ Proof.
   intros Hok Hj. pose proof Hok as (Hfmt & Hoff & Hts & Hk & Hv & Hts0 & Hh).
   unfold v1_body, in_st. rewrite top_st. cbv zeta. cbn [f_hdr f_base].
   unfold bind at 1. rewrite codec_mhdr by exact Hok.
-  destruct (ztake_lt j (mb (snd it)) (stream items) Hj) as (H1 & H2 & H3). rewrite H1.
+  destruct (ztake_lt j (mb (snd it)) (stream items ++ tl) Hj) as (H1 & H2 & H3). rewrite H1.
   unfold mhdr at 1. cbn [h_first]. unfold small in Hoff. rewrite wrap64_small by lia.
   destruct (r_off (snd it) + 0 <? mn).
   - pose proof (mshort_skip (fst it) (snd it) Hok) as Hs.
@@ -177,12 +179,14 @@ Definition deliver_ok (fuel : nat) (mn el : Z) (m : msr) (r : lres) : Prop :=
   | LDeliver it' items' j' =>
     read_v1 decomp fuel mn m = MOk (vals it') (bnd_st items' j' (mhdr (fst it') (snd it')) el) /\ 0 <= j'
   | LEnd => ended el (read_v1 decomp fuel mn m)
+  | LCont _ => True
   end.
 Definition body_ok (f : nat) (mn el : Z) (m : msr) (r : lres) : Prop :=
   match r with
   | LDeliver it' items' j' =>
     v1_body decomp (read_v1 decomp f mn) mn m = MOk (vals it') (bnd_st items' j' (mhdr (fst it') (snd it')) el) /\ 0 <= j'
   | LEnd => ended el (v1_body decomp (read_v1 decomp f mn) mn m)
+  | LCont _ => True
   end.
 
 Lemma v1_loops : forall items,
@@ -193,19 +197,12 @@ Lemma v1_loops : forall items,
      body_ok f mn el (in_st it items j el) (lg_read mn it items j)).
 Proof.
   induction items as [|it2 t IH]; intros Hall.
-  - assert (HB : forall j fuel mn h el, 0 <= j -> (length (@nil item) + 2 <= fuel)%nat ->
-              deliver_ok fuel mn el (bnd_st [] j h el) (lg_bnd mn [] j)).
-    { intros j fuel mn h el Hj Hf. cbn [lg_bnd deliver_ok]. unfold bnd_st.
-      apply (read_v1_pop fuel mn _ 0 h 1 el nat eq_refl); [cbn [length] in Hf; lia|].
-      cbn [stream flat_map]. unfold ztake. rewrite firstn_nil. reflexivity. }
-    split; [exact HB|].
+  - split; [intros; exact I|].
     intros it j f mn el Hok Hj Hf. unfold body_ok. cbn [lg_read].
     destruct (j <? len (mb (snd it))) eqn:Ej.
     + apply v1_body_short; [exact Hok|lia].
-    + rewrite v1_body_spec by assumption. rewrite Ej.
-      destruct (r_off (snd it) <? mn).
-      * apply (HB (j - len (mb (snd it))) f mn _ el); [lia|exact Hf].
-      * split; [reflexivity|lia].
+    + destruct (r_off (snd it) <? mn) eqn:Er; [exact I|].
+      rewrite v1_body_spec by assumption. rewrite Ej, Er. split; [reflexivity|lia].
   - apply Forall_cons_iff in Hall as [Hok2 Hall]. destruct (IH Hall) as [IHB IHV].
     assert (HB : forall j fuel mn h el, 0 <= j -> (length (it2 :: t) + 2 <= fuel)%nat ->
               deliver_ok fuel mn el (bnd_st (it2 :: t) j h el) (lg_bnd mn (it2 :: t) j)).
@@ -216,18 +213,18 @@ Proof.
       destruct (Z.eq_dec j 0) as [-> | Hj0].
       - replace (0 <? len (mh (fst it2) (snd it2))) with true by lia. cbn [deliver_ok].
         apply (read_v1_pop (S f) mn _ 0 h 1 el nat eq_refl); [lia|]. reflexivity.
-      - assert (Hrem : len (ztake j (mh (fst it2) (snd it2) ++ mb (snd it2) ++ stream t)) <> 0).
-        { rewrite ztake_len by lia. rewrite !len_app. pose proof (len_nonneg (stream t)). lia. }
+      - assert (Hrem : len (ztake j (mh (fst it2) (snd it2) ++ mb (snd it2) ++ stream t ++ tl)) <> 0).
+        { rewrite ztake_len by lia. rewrite !len_app. pose proof (len_nonneg (stream t)). pose proof (len_nonneg tl). lia. }
         destruct (j <? len (mh (fst it2) (snd it2))) eqn:Ej.
         + cbn [deliver_ok]. cbn [read_v1 m_stack st f_remain].
           replace (_ =? 0) with false by lia.
-          destruct (ztake_lt j (mh (fst it2) (snd it2)) (mb (snd it2) ++ stream t) ltac:(lia)) as (H1 & H2 & H3).
+          destruct (ztake_lt j (mh (fst it2) (snd it2)) (mb (snd it2) ++ stream t ++ tl) ltac:(lia)) as (H1 & H2 & H3).
           rewrite H1. unfold bind at 1. rewrite read_header_idle'.
           destruct f as [|f2]; [lia|]. cbn [read_header_loop]. unfold bind at 1.
           destruct (mheader_short (fst it2) (snd it2) _ _ 0 h 1 el Hok2 H2 H3) as [i' Hi'].
           rewrite Hi'. apply ended_st.
         + (* the header is whole: the loop body runs on the message *)
-          assert (Hstep : read_v1 decomp (S f) mn (st (ztake j (mh (fst it2) (snd it2) ++ mb (snd it2) ++ stream t)) 0 h 1 el)
+          assert (Hstep : read_v1 decomp (S f) mn (st (ztake j (mh (fst it2) (snd it2) ++ mb (snd it2) ++ stream t ++ tl)) 0 h 1 el)
                           = v1_body decomp (read_v1 decomp f mn) mn (in_st it2 t (j - len (mh (fst it2) (snd it2))) el)).
           { cbn [read_v1 m_stack st f_remain]. replace (_ =? 0) with false by lia.
             rewrite ztake_ge by lia. unfold bind at 1. rewrite read_header_idle'.
@@ -237,7 +234,7 @@ Proof.
             destruct Hok2 as ([E|E] & _); rewrite E; cbn [Z.eqb Pos.eqb negb orb]; reflexivity. }
           pose proof (IHV it2 (j - len (mh (fst it2) (snd it2))) f mn el Hok2 ltac:(lia) ltac:(lia)) as Hv.
           unfold deliver_ok. unfold body_ok in Hv.
-          destruct (lg_read mn it2 t (j - len (mh (fst it2) (snd it2)))) as [it' items' j'|]; rewrite Hstep; exact Hv. }
+          destruct (lg_read mn it2 t (j - len (mh (fst it2) (snd it2)))) as [it' items' j'| |jc]; try rewrite Hstep; exact Hv. }
     split; [exact HB|].
     intros it j f mn el Hok Hj Hf. unfold body_ok.
     destruct (j <? len (mb (snd it))) eqn:Ej.
@@ -280,6 +277,7 @@ Lemma msr_in fuel mn it items j el m0 :
     msr_read decomp fuel mn m0 = MOk (msg_of (snd it'), -1) (bnd_st items' j' (mhdr (fst it') (snd it')) el)
     /\ 0 <= j' /\ item_ok it'
   | LEnd => ended el (msr_read decomp fuel mn m0)
+  | LCont _ => True
   end.
 Proof.
   intros Hok Hall Hj Hf Hemp Hhdr.
@@ -303,15 +301,15 @@ Proof.
   assert (Hr1 : j <> 0 -> read_v1 decomp (S f) mn (in_st it items j el)
                           = v1_body decomp (read_v1 decomp f mn) mn (in_st it items j el)).
   { intros Hj0. cbn [read_v1]. unfold in_st at 1. cbn [m_stack st f_remain].
-    rewrite ztake_len by lia. rewrite len_app. pose proof (mb_pos it). pose proof (len_nonneg (stream items)).
-    replace (Z.min j (len (mb (snd it)) + len (stream items)) =? 0) with false by lia.
+    rewrite ztake_len by lia. rewrite !len_app. pose proof (mb_pos it). pose proof (len_nonneg (stream items)). pose proof (len_nonneg tl).
+    replace (Z.min j (len (mb (snd it)) + (len (stream items) + len tl)) =? 0) with false by lia.
     fold (in_st it items j el). unfold bind at 1. unfold in_st at 1. rewrite read_header_busy' by lia. reflexivity. }
   destruct (Z.eq_dec j 0) as [-> | Hj0].
   - assert (E0 : lg_read mn it items 0 = LEnd).
     { destruct items; cbn [lg_read]; pose proof (mb_pos it); replace (0 <? len (mb (snd it))) with true by lia; reflexivity. }
     rewrite E0. apply ended_bind. unfold in_st.
     apply (read_v1_pop (S f) mn _ 1 _ 1 el nat eq_refl); [lia|reflexivity].
-  - unfold body_ok in Hv. destruct (lg_read mn it items j) as [it' items' j'|] eqn:El.
+  - unfold body_ok in Hv. destruct (lg_read mn it items j) as [it' items' j'| |jc] eqn:El; [| |exact I].
     + destruct Hv as [Hv1 Hv2]. unfold bind at 1. rewrite (Hr1 Hj0), Hv1.
       split; [|split; [exact Hv2|apply (Hdeliv _ _ _ eq_refl)]].
       pose proof (msg_of_vals it' (Hdeliv _ _ _ eq_refl)) as Hm. unfold vals in *. cbn iota beta in *. unfold ret.
@@ -326,6 +324,7 @@ Lemma msr_step fuel mn P el :
     msr_read decomp fuel mn (concm P el) = MOk (msg_of (snd it'), -1) (bnd_st items' j' (mhdr (fst it') (snd it')) el)
     /\ 0 <= j' /\ item_ok it'
   | LEnd => ended el (msr_read decomp fuel mn (concm P el))
+  | LCont _ => True
   end.
 Proof.
   intros Hok Hf. destruct P as [it items j|items j h]; cbn [lstep concm pcount pos_ok1] in *.
@@ -333,16 +332,14 @@ Proof.
     apply (msr_in fuel mn it items j el (in_st it items j el)); try assumption; try lia; try reflexivity.
     all: try (unfold in_st; apply read_header_busy'; lia).
   - destruct Hok as [Hall Hj]. destruct items as [|it t].
-    + cbn [lg_bnd]. unfold msr_read, bnd_st. cbn [m_empty st]. apply ended_bind.
-      rewrite read_header_idle'. destruct fuel as [|f]; [lia|]. cbn [read_header_loop stream flat_map].
-      unfold ztake. rewrite firstn_nil. apply ended_bind. apply (ended_st [] 0 h el).
+    + exact I.
     + apply Forall_cons_iff in Hall as [Hok Hall]. cbn [lg_bnd length] in *.
       pose proof (mh_pos it Hok) as Hmh.
       destruct (j <? len (mh (fst it) (snd it))) eqn:Ej.
       * unfold msr_read, bnd_st. cbn [m_empty st]. apply ended_bind. rewrite read_header_idle'.
         destruct fuel as [|f]; [lia|]. cbn [read_header_loop]. apply ended_bind.
         rewrite stream_cons.
-        destruct (ztake_lt j (mh (fst it) (snd it)) (mb (snd it) ++ stream t) ltac:(lia)) as (H1 & H2 & H3).
+        destruct (ztake_lt j (mh (fst it) (snd it)) (mb (snd it) ++ stream t ++ tl) ltac:(lia)) as (H1 & H2 & H3).
         rewrite H1. destruct (mheader_short (fst it) (snd it) _ _ 0 h 1 el Hok H2 H3) as [i' Hi'].
         rewrite Hi'. apply ended_st.
       * apply (msr_in fuel mn it t (j - len (mh (fst it) (snd it))) el (bnd_st (it :: t) j h el)); try assumption; try lia; try reflexivity.
@@ -361,87 +358,52 @@ Proof.
   destruct H as [H1 H2]. destruct (IH _ _ H2) as [lo2 [Hl Hi]]. exists lo2. split; [lia|exact Hi].
 Qed.
 
+Lemma increasing_app_l' lo a b : increasing lo (a ++ b) -> increasing lo a.
+Proof.
+  revert lo. induction a as [|x t IH]; intros lo H; [exact I|].
+  destruct H as [H1 H2]. split; [exact H1|apply (IH _ H2)].
+Qed.
+Lemma increasing_lb' lo log : increasing lo log -> forall r, In r log -> lo <= r_off r.
+Proof.
+  revert lo. induction log as [|x t IH]; intros lo H r Hr; [destruct Hr|].
+  destruct H as [H1 H2]. destruct Hr as [->|Hr]; [exact H1|].
+  specialize (IH _ H2 r Hr). lia.
+Qed.
+
 Lemma filter_all_false' {A} (f : A -> bool) l : Forall (fun x => f x = false) l -> filter f l = [].
 Proof. induction 1 as [|x t Hx _ IH]; [reflexivity|]. cbn. rewrite Hx. exact IH. Qed.
 
 (* ---------------------------------------------------------------- Batch level *)
 Section Batch.
 Variable decomp : Z -> list N -> option (list N).
+Variable tl : list N.
+Variable tlrecs : list record.   (* the records held by the tail *)
 Variable o : Z.
 
 Definition LB (P : lpos) (off : Z) : batch :=
-  mkBatch (Some (concm P (-1))) true o off (-1) None false.
+  mkBatch (Some (concm tl P (-1))) true o off (-1) None false.
 
 Definition lfinal (off : Z) : Z := if off <=? -1 then 0 else off.
 
-Fixpoint l_run (fuel : nat) (P : lpos) (off : Z) (acc : list msg) {struct fuel} : option (list msg * Z) :=
+(* LGo: the messages are exhausted: the run goes on, with the fuel that is left, at the boundary
+   in front of the tail *)
+Inductive lrun :=
+| LDone (ms : list msg) (x : Z)
+| LGo (j : Z) (h : hdr) (off : Z) (acc : list msg) (fuel : nat)
+| LFail.
+
+Fixpoint l_run (fuel : nat) (P : lpos) (off : Z) (acc : list msg) {struct fuel} : lrun :=
   match fuel with
-  | O => None
+  | O => LFail
   | S f =>
     match lstep off P with
     | LDeliver it' items' j' =>
       l_run f (PBnd items' j' (mhdr (fst it') (snd it'))) (r_off (snd it') + 1) (msg_of (snd it') :: acc)
-    | LEnd => Some (rev acc, lfinal off)
+    | LEnd => LDone (rev acc) (lfinal off)
+    | LCont _ => match P with PBnd [] j h => LGo j h off acc (S f) | _ => LFail end
     end
   end.
 
-Lemma lstep_deliver mn P it' items' j' :
-  lstep mn P = LDeliver it' items' j' ->
-  mn <= r_off (snd it') /\ (length items' < pcount P)%nat.
-Proof.
-  assert (Hr : forall items it j, lg_read mn it items j = LDeliver it' items' j' ->
-               mn <= r_off (snd it') /\ (length items' <= length items)%nat).
-  { induction items as [|it2 t IH]; intros it j H; cbn [lg_read] in H.
-    - destruct (j <? _); [discriminate|]. destruct (r_off (snd it) <? mn) eqn:E; [discriminate|].
-      injection H as <- <- _. cbn. lia.
-    - destruct (j <? _); [discriminate|]. destruct (r_off (snd it) <? mn) eqn:E.
-      + destruct (_ <? _) in H; [discriminate|]. destruct (IH _ _ H). cbn [length]. lia.
-      + injection H as <- <- _. cbn [length]. lia. }
-  destruct P as [it items j|items j h]; cbn [lstep pcount]; intros H.
-  - destruct (Hr _ _ _ H). lia.
-  - destruct items as [|it t]; cbn [lg_bnd] in H; [discriminate|].
-    destruct (_ <? _) in H; [discriminate|]. destruct (Hr _ _ _ H). cbn [length]. lia.
-Qed.
-
-Lemma run_refine_v1 : forall fuel P off acc,
-  pos_ok1 P -> o <= off -> (pcount P + 3 <= fuel)%nat ->
-  match l_run fuel P off acc with
-  | Some (ms, x) => batch_run decomp fuel (LB P off) acc = Some (ms, EEOF, x)
-  | None => False
-  end.
-Proof.
-  induction fuel as [|f IH]; intros P off acc Hok Ho Hf; [lia|].
-  cbn [l_run batch_run batch_read]. cbn [batch_read].
-  pose proof (msr_step decomp (S f) off P (-1) Hok ltac:(lia)) as Hs.
-  unfold batch_read1, LB. cbn [b_err b_msgs b_off b_last b_late].
-  destruct (lstep off P) as [it' items' j'|] eqn:El.
-  - destruct Hs as (Hs1 & Hs2 & Hs3). rewrite Hs1.
-    destruct (lstep_deliver off P it' items' j' El) as [Hge Hcnt].
-    cbn [g_off msg_of set_b m_lrem bnd_st st b_has_conn b_conn_off andb Z.eqb].
-    replace (off <=? r_off (snd it')) with true by lia.
-    replace (r_off (snd it') <? o) with false by lia.
-    specialize (IH (PBnd items' j' (mhdr (fst it') (snd it'))) (r_off (snd it') + 1) (msg_of (snd it') :: acc)).
-    cbn [pos_ok1 pcount] in IH.
-    assert (Hall' : Forall item_ok items').
-    { clear -Hok El. 
-      assert (Hr : forall items it j, Forall item_ok items -> lg_read off it items j = LDeliver it' items' j' -> Forall item_ok items').
-      { induction items as [|it2 t IHt]; intros it j Ha H; cbn [lg_read] in H.
-        - destruct (j <? _); [discriminate|]. destruct (_ <? off); [discriminate|]. injection H as _ <- _. constructor.
-        - destruct (j <? _); [discriminate|]. destruct (_ <? off).
-          + destruct (_ <? _) in H; [discriminate|]. apply Forall_cons_iff in Ha as [_ Ha]. apply (IHt _ _ Ha H).
-          + injection H as _ <- _. exact Ha. }
-      destruct P as [it items j|items j h]; cbn [lstep pos_ok1] in *.
-      - destruct Hok as (_ & Ha & _). apply (Hr _ _ _ Ha El).
-      - destruct Hok as [Ha _]. destruct items as [|it t]; cbn [lg_bnd] in El; [discriminate|].
-        destruct (_ <? _) in El; [discriminate|]. apply Forall_cons_iff in Ha as [_ Ha]. apply (Hr _ _ _ Ha El). }
-    specialize (IH (conj Hall' Hs2) ltac:(lia) ltac:(lia)).
-    unfold LB in IH. cbn [concm] in IH. exact IH.
-  - destruct Hs as (m' & Hm1 & Hm2 & Hm3 & Hm4). rewrite Hm1, Hm2.
-    cbn [negb andb]. rewrite Hm3, Hm4. cbn [Z.eqb andb set_b b_off]. unfold lfinal.
-    destruct (off <=? -1); reflexivity.
-Qed.
-
-(* ---------------------------------------------------------------- offsets *)
 Definition recs_of (items : list item) : list record := map snd items.
 Definition pend (P : lpos) : list record :=
   match P with PIn it items _ => snd it :: recs_of items | PBnd items _ _ => recs_of items end.
@@ -449,63 +411,218 @@ Definition pend (P : lpos) : list record :=
 Lemma lg_read_split mn : forall items it j it' items' j',
   lg_read mn it items j = LDeliver it' items' j' ->
   exists sk, snd it :: recs_of items = sk ++ snd it' :: recs_of items'
-             /\ Forall (fun x => r_off x < mn) sk /\ mn <= r_off (snd it').
+             /\ Forall (fun x => r_off x < mn) sk /\ mn <= r_off (snd it')
+             /\ (length items' <= length items)%nat.
 Proof.
   induction items as [|it2 t IH]; intros it j it' items' j' H; cbn [lg_read] in H.
   - destruct (j <? _); [discriminate|]. destruct (r_off (snd it) <? mn) eqn:E; [discriminate|].
-    injection H as <- <- _. exists []. cbn. split; [reflexivity|]. split; [constructor|lia].
+    injection H as <- <- _. exists []. cbn. split; [reflexivity|]. split; [constructor|]. split; [lia|lia].
   - destruct (j <? _); [discriminate|]. destruct (r_off (snd it) <? mn) eqn:E.
-    + destruct (_ <? _) in H; [discriminate|]. destruct (IH _ _ _ _ _ H) as (sk & H1 & H2 & H3).
-      exists (snd it :: sk). split; [|split; [constructor; [lia|exact H2]|exact H3]].
+    + destruct (_ <? _) in H; [discriminate|]. destruct (IH _ _ _ _ _ H) as (sk & H1 & H2 & H3 & H4).
+      exists (snd it :: sk). split; [|split; [constructor; [lia|exact H2]|split; [exact H3|cbn [length]; lia]]].
       change (recs_of (it2 :: t)) with (snd it2 :: recs_of t). cbn [app]. f_equal. exact H1.
-    + injection H as <- <- _. exists []. cbn. split; [reflexivity|]. split; [constructor|lia].
+    + injection H as <- <- _. exists []. cbn. split; [reflexivity|]. split; [constructor|]. split; [lia|lia].
 Qed.
 
 Lemma lstep_split mn P it' items' j' :
   lstep mn P = LDeliver it' items' j' ->
-  exists sk, pend P = sk ++ snd it' :: recs_of items' /\ Forall (fun x => r_off x < mn) sk /\ mn <= r_off (snd it').
+  exists sk, pend P = sk ++ snd it' :: recs_of items' /\ Forall (fun x => r_off x < mn) sk /\ mn <= r_off (snd it')
+             /\ (length items' < pcount P)%nat.
 Proof.
-  destruct P as [it items j|items j h]; cbn [lstep pend]; intros H.
-  - apply (lg_read_split mn _ _ _ _ _ _ H).
+  destruct P as [it items j|items j h]; cbn [lstep pend pcount]; intros H.
+  - destruct (lg_read_split mn _ _ _ _ _ _ H) as (sk & H1 & H2 & H3 & H4). exists sk. repeat split; try assumption. lia.
   - destruct items as [|it t]; cbn [lg_bnd] in H; [discriminate|].
-    destruct (_ <? _) in H; [discriminate|]. apply (lg_read_split mn _ _ _ _ _ _ H).
+    destruct (_ <? _) in H; [discriminate|].
+    destruct (lg_read_split mn _ _ _ _ _ _ H) as (sk & H1 & H2 & H3 & H4). exists sk. repeat split; try assumption. cbn [length]. lia.
 Qed.
 
-Lemma l_run_spec : forall fuel P off acc ms x lo,
-  0 <= o -> o <= off -> increasing lo (pend P) ->
-  (forall r, In r (pend P) -> o <= r_off r -> off <= r_off r) ->
-  l_run fuel P off acc = Some (ms, x) ->
-  exists Rp Rs, pend P = Rp ++ Rs /\ ms = rev acc ++ mm (filter (fun r => o <=? r_off r) Rp)
-                /\ Forall (fun r => r_off r < x) Rp
-                /\ (forall r, In r Rs -> o <= r_off r -> x <= r_off r) /\ off <= x.
+(* the last message is never skipped when it is at or after mn: no continuation from inside
+   readMessageV1 *)
+Lemma lg_read_no_cont mn : forall items it j jc lo,
+  increasing lo (snd it :: recs_of items) -> mn <= last_off (snd it :: recs_of items) 0 ->
+  lg_read mn it items j <> LCont jc.
 Proof.
-  induction fuel as [|f IH]; intros P off acc ms x lo Ho0 Ho Hinc HJ Hrun; [discriminate|].
-  cbn [l_run] in Hrun. destruct (lstep off P) as [it' items' j'|] eqn:El.
-  - destruct (lstep_split off P it' items' j' El) as (sk & E1 & E2 & E3).
-    assert (Hinc' : increasing (r_off (snd it') + 1) (recs_of items')).
-    { rewrite E1 in Hinc. destruct (increasing_app_r' sk _ _ Hinc) as [lo2 [_ H]]. exact (proj2 H). }
-    destruct (IH (PBnd items' j' (mhdr (fst it') (snd it'))) (r_off (snd it') + 1) (msg_of (snd it') :: acc) ms x
-                 (r_off (snd it') + 1) Ho0 ltac:(lia) Hinc') as (Rp & Rs & G1 & G2 & G3 & G4 & G5).
-    { intros r Hr _. cbn [pend] in Hr. apply (increasing_lb _ _ Hinc' r Hr). }
-    { exact Hrun. }
-    cbn [pend] in G1.
-    exists (sk ++ snd it' :: Rp), Rs. split; [rewrite E1, G1, <- app_assoc; reflexivity|].
-    assert (Hsk : Forall (fun x0 => r_off x0 < o) sk).
-    { apply Forall_forall. intros r Hr. pose proof (proj1 (Forall_forall _ _) E2 r Hr) as Hlt. cbn in Hlt.
-      destruct (Z_lt_le_dec (r_off r) o) as [C|C]; [exact C|exfalso].
-      assert (In r (pend P)) by (rewrite E1; apply in_or_app; left; exact Hr).
-      specialize (HJ r H C). lia. }
-    split.
-    + rewrite G2. cbn [rev]. rewrite filter_app.
-      rewrite (filter_all_false' _ sk) by (eapply Forall_impl; [|exact Hsk]; cbn; intros; lia).
-      cbn [app filter]. replace (o <=? r_off (snd it')) with true by lia.
-      unfold mm. cbn [map]. rewrite <- app_assoc. reflexivity.
-    + split; [|split; [exact G4|lia]].
-      apply Forall_app. split; [eapply Forall_impl; [|exact E2]; cbn; intros; lia|].
-      constructor; [lia|exact G3].
-  - injection Hrun as <- <-. exists [], (pend P). cbn [app filter]. unfold mm. cbn [map]. rewrite app_nil_r.
+  induction items as [|it2 t IH]; intros it j jc lo Hi Hl H; cbn [lg_read] in H.
+  - destruct (j <? _); [discriminate|]. destruct (r_off (snd it) <? mn) eqn:E; [|discriminate].
+    cbn [recs_of map last_off] in Hl. lia.
+  - destruct (j <? _); [discriminate|]. destruct (r_off (snd it) <? mn) eqn:E; [|discriminate].
+    destruct (_ <? _) in H; [discriminate|].
+    change (recs_of (it2 :: t)) with (snd it2 :: recs_of t) in *. destruct Hi as [_ Hi].
+    eapply IH; [exact Hi| |exact H]. cbn [last_off] in Hl |- *. exact Hl.
+Qed.
+
+Lemma forall_items_after mn : forall items it j it' items' j',
+  Forall item_ok items -> lg_read mn it items j = LDeliver it' items' j' -> Forall item_ok items'.
+Proof.
+  induction items as [|it2 t IHt]; intros it j it' items' j' Ha H; cbn [lg_read] in H.
+  - destruct (j <? _); [discriminate|]. destruct (_ <? mn); [discriminate|]. injection H as _ <- _. constructor.
+  - destruct (j <? _); [discriminate|]. destruct (_ <? mn).
+    + destruct (_ <? _) in H; [discriminate|]. apply Forall_cons_iff in Ha as [_ Ha]. apply (IHt _ _ _ _ _ Ha H).
+    + injection H as _ <- _. exact Ha.
+Qed.
+
+Lemma last_off_app a : forall b d, b <> [] -> last_off (a ++ b) d = last_off b d.
+Proof.
+  induction a as [|x t IH]; intros b d Hb; [reflexivity|]. cbn [app last_off]. rewrite IH by exact Hb.
+  destruct b; [contradiction|reflexivity].
+Qed.
+
+(* the invariant of the run: offsets increase, the last pending record is at or after o, and
+   every pending record at or after o is at or after the position *)
+Definition linv (P : lpos) (off : Z) : Prop :=
+  0 <= o /\ o <= off /\ (exists lo, increasing lo (pend P ++ tlrecs))
+  /\ (pend P <> [] -> o <= last_off (pend P) 0)
+  /\ (forall r, In r (pend P ++ tlrecs) -> o <= r_off r -> off <= r_off r).
+
+Lemma last_off_in : forall rs d, rs <> [] -> exists r, In r rs /\ r_off r = last_off rs d.
+Proof.
+  induction rs as [|x t IH]; intros d H; [contradiction|]. cbn [last_off].
+  destruct t as [|y t'].
+  - exists x. split; [left; reflexivity|reflexivity].
+  - destruct (IH (r_off x) ltac:(discriminate)) as (r & Hr & He). exists r. split; [right; exact Hr|exact He].
+Qed.
+
+Lemma linv_last P off : linv P off -> pend P <> [] -> off <= last_off (pend P) 0.
+Proof.
+  intros (Ho0 & Ho & _ & Hl & HJ) Hne. specialize (Hl Hne).
+  destruct (last_off_in (pend P) 0 Hne) as (r & Hr & He). rewrite <- He in *. apply HJ; [apply in_or_app; left; exact Hr|assumption].
+Qed.
+
+Lemma lstep_no_cont P off jc : linv P off -> pend P <> [] -> lstep off P <> LCont jc.
+Proof.
+  intros HI Hne. pose proof (linv_last P off HI Hne) as Hl. destruct HI as (_ & _ & [lo Hi] & _).
+  apply increasing_app_l' in Hi.
+  destruct P as [it items j|items j h]; cbn [lstep pend] in *.
+  - apply (lg_read_no_cont off items it j jc lo Hi Hl).
+  - destruct items as [|it t]; [contradiction|]. cbn [lg_bnd]. destruct (_ <? _); [discriminate|].
+    apply (lg_read_no_cont off t it _ jc lo Hi Hl).
+Qed.
+
+(* after a delivery *)
+Lemma linv_step P off it' items' j' :
+  linv P off -> lstep off P = LDeliver it' items' j' ->
+  linv (PBnd items' j' (mhdr (fst it') (snd it'))) (r_off (snd it') + 1)
+  /\ exists sk, pend P = sk ++ snd it' :: recs_of items' /\ Forall (fun x => r_off x < o) sk
+                /\ off <= r_off (snd it').
+Proof.
+  intros (Ho0 & Ho & [lo Hi] & Hl & HJ) El.
+  destruct (lstep_split off P it' items' j' El) as (sk & E1 & E2 & E3 & _).
+  assert (Hinc' : increasing (r_off (snd it') + 1) (recs_of items' ++ tlrecs)).
+  { rewrite E1, <- app_assoc in Hi. destruct (increasing_app_r' sk _ _ Hi) as [lo2 [_ H]]. exact (proj2 H). }
+  assert (Hsk : Forall (fun x0 => r_off x0 < o) sk).
+  { apply Forall_forall. intros r Hr. pose proof (proj1 (Forall_forall _ _) E2 r Hr) as Hlt. cbn in Hlt.
+    destruct (Z_lt_le_dec (r_off r) o) as [C|C]; [exact C|exfalso].
+    assert (In r (pend P ++ tlrecs)) by (rewrite E1; apply in_or_app; left; apply in_or_app; left; exact Hr).
+    specialize (HJ r H C). lia. }
+  split; [|exists sk; auto].
+  split; [exact Ho0|]. split; [lia|]. cbn [pend]. split; [exists (r_off (snd it') + 1); exact Hinc'|].
+  split.
+  - intros Hne. assert (Hp : pend P <> []) by (rewrite E1; destruct sk; discriminate).
+    specialize (Hl Hp). rewrite E1 in Hl.
+    rewrite last_off_app in Hl by discriminate. cbn [last_off] in Hl.
+    destruct (recs_of items') as [|y t] eqn:Ey; [contradiction|]. cbn [last_off] in Hl |- *. exact Hl.
+  - intros r Hr _. apply (increasing_lb' _ _ Hinc' r Hr).
+Qed.
+
+Lemma run_refine_v1 : forall fuel P off acc,
+  pos_ok1 P -> linv P off -> (pcount P + 3 <= fuel)%nat ->
+  match l_run fuel P off acc with
+  | LDone ms x => batch_run decomp fuel (LB P off) acc = Some (ms, EEOF, x)
+  | LGo j h off' acc' f' =>
+    batch_run decomp fuel (LB P off) acc = batch_run decomp f' (LB (PBnd [] j h) off') acc' /\ (3 <= f')%nat
+    /\ o <= off' /\ 0 <= j /\ (fuel <= f' + pcount P)%nat
+  | LFail => False
+  end.
+Proof.
+  induction fuel as [|f IH]; intros P off acc Hok HI Hf; [lia|].
+  cbn [l_run].
+  pose proof (msr_step decomp tl (S f) off P (-1) Hok ltac:(lia)) as Hs.
+  destruct (lstep off P) as [it' items' j'| |jc] eqn:El.
+  - cbn [batch_run batch_read]. unfold batch_read1, LB. cbn [b_err b_msgs b_off b_last b_late].
+    destruct Hs as (Hs1 & Hs2 & Hs3). rewrite Hs1.
+    destruct (linv_step P off it' items' j' HI El) as (HI' & sk & E1 & E2 & Hge).
+    destruct (lstep_split off P it' items' j' El) as (_ & _ & _ & _ & Hcnt).
+    cbn [g_off msg_of set_b m_lrem bnd_st st b_has_conn b_conn_off andb Z.eqb].
+    destruct HI as (Ho0 & Ho & _).
+    replace (off <=? r_off (snd it')) with true by lia.
+    replace (r_off (snd it') <? o) with false by lia.
+    specialize (IH (PBnd items' j' (mhdr (fst it') (snd it'))) (r_off (snd it') + 1) (msg_of (snd it') :: acc)).
+    cbn [pos_ok1 pcount] in IH.
+    assert (Hall' : Forall item_ok items').
+    { destruct P as [it items j|items j h]; cbn [lstep pos_ok1] in *.
+      - destruct Hok as (_ & Ha & _). apply (forall_items_after off _ _ _ _ _ _ Ha El).
+      - destruct Hok as [Ha _]. destruct items as [|it t]; cbn [lg_bnd] in El; [discriminate|].
+        destruct (_ <? _) in El; [discriminate|]. apply Forall_cons_iff in Ha as [_ Ha]. apply (forall_items_after off _ _ _ _ _ _ Ha El). }
+    specialize (IH (conj Hall' Hs2) HI' ltac:(lia)).
+    unfold LB in IH. cbn [concm] in IH.
+    destruct (l_run f _ _ _) as [ms x|jg hg og ag fg|]; [exact IH| |exact IH].
+    destruct IH as (I1 & I2 & I3 & I4 & I5). split; [exact I1|]. split; [exact I2|]. split; [exact I3|]. split; [exact I4|lia].
+  - cbn [batch_run batch_read]. unfold batch_read1, LB. cbn [b_err b_msgs b_off b_last b_late].
+    destruct Hs as (m' & Hm1 & Hm2 & Hm3 & Hm4). rewrite Hm1, Hm2.
+    cbn [negb andb]. rewrite Hm3, Hm4. cbn [Z.eqb andb set_b b_off]. unfold lfinal.
+    destruct (off <=? -1); reflexivity.
+  - destruct P as [it items j|items j h].
+    + exfalso. apply (lstep_no_cont _ off jc HI ltac:(discriminate) El).
+    + destruct items as [|it t].
+      * split; [reflexivity|]. destruct HI as (_ & Ho & _). destruct Hok as [_ Hj]. split; [lia|]. split; [exact Ho|]. split; [exact Hj|cbn [pcount length]; lia].
+      * exfalso. apply (lstep_no_cont _ off jc HI ltac:(discriminate) El).
+Qed.
+
+(* what the run has delivered when it stops or goes on into the tail *)
+Lemma l_run_spec : forall fuel P off acc,
+  linv P off ->
+  match l_run fuel P off acc with
+  | LDone ms x =>
+    exists Rp Rs, pend P = Rp ++ Rs /\ ms = rev acc ++ mm (filter (fun r => o <=? r_off r) Rp)
+                  /\ Forall (fun r => r_off r < x) Rp
+                  /\ (forall r, In r (Rs ++ tlrecs) -> o <= r_off r -> x <= r_off r) /\ off <= x
+  | LGo j h off' acc' f' =>
+    rev acc' = rev acc ++ mm (filter (fun r => o <=? r_off r) (pend P))
+    /\ Forall (fun r => r_off r < off') (pend P) /\ off <= off' /\ linv (PBnd [] j h) off'
+  | LFail => True
+  end.
+Proof.
+  induction fuel as [|f IH]; intros P off acc HI; [exact I|].
+  cbn [l_run]. destruct (lstep off P) as [it' items' j'| |jc] eqn:El.
+  - destruct (linv_step P off it' items' j' HI El) as (HI' & sk & E1 & Hsk & Hge).
+    specialize (IH (PBnd items' j' (mhdr (fst it') (snd it'))) (r_off (snd it') + 1) (msg_of (snd it') :: acc) HI').
+    destruct HI as (Ho0 & Ho & _).
+    assert (Hf : filter (fun r => o <=? r_off r) (sk ++ [snd it']) = [snd it']).
+    { rewrite filter_app, (filter_all_false' _ sk) by (eapply Forall_impl; [|exact Hsk]; cbn; intros; lia).
+      cbn [app filter]. replace (o <=? r_off (snd it')) with true by lia. reflexivity. }
+    destruct (l_run f _ _ _) as [ms x|j h off' acc' f'|]; [| |exact I].
+    + destruct IH as (Rp & Rs & G1 & G2 & G3 & G4 & G5). cbn [pend] in G1.
+      exists (sk ++ snd it' :: Rp), Rs. split; [rewrite E1, G1, <- app_assoc; reflexivity|].
+      split.
+      * rewrite G2. cbn [rev]. change (sk ++ snd it' :: Rp) with (sk ++ [snd it'] ++ Rp). rewrite app_assoc, filter_app, Hf.
+        unfold mm. cbn [map app]. rewrite <- app_assoc. reflexivity.
+      * split; [|split; [exact G4|lia]].
+        apply Forall_app. split; [eapply Forall_impl; [|exact Hsk]; cbn; intros; lia|].
+        constructor; [lia|exact G3].
+    + destruct IH as (G1 & G2 & G3 & G4). cbn [pend] in G1, G2. split; [|split; [|split; [lia|exact G4]]].
+      * rewrite G1. cbn [rev]. rewrite E1. change (sk ++ snd it' :: recs_of items') with (sk ++ [snd it'] ++ recs_of items').
+        rewrite app_assoc, filter_app, Hf. unfold mm. rewrite map_app. cbn [map app]. rewrite <- !app_assoc. reflexivity.
+      * rewrite E1. apply Forall_app. split; [eapply Forall_impl; [|exact Hsk]; cbn; intros; lia|].
+        constructor; [lia|exact G2].
+  - destruct HI as (Ho0 & Ho & _ & _ & HJ). exists [], (pend P). cbn [app filter]. unfold mm. cbn [map]. rewrite app_nil_r.
     unfold lfinal. replace (off <=? -1) with false by lia.
     split; [reflexivity|]. split; [reflexivity|]. split; [constructor|]. split; [exact HJ|lia].
+  - destruct P as [it items j|[|it t] j h]; try exact I.
+    cbn [pend recs_of map filter]. unfold mm. cbn [map]. rewrite app_nil_r. split; [reflexivity|]. split; [constructor|]. split; [lia|exact HI].
+Qed.
+
+(* nothing follows the messages: the end of the response *)
+Lemma bnd_nil_done f j h off acc :
+  tl = [] ->
+  batch_run decomp (S f) (LB (PBnd [] j h) off) acc = Some (rev acc, EEOF, lfinal off).
+Proof.
+  intros Htl. cbn [batch_run batch_read]. unfold batch_read1, LB. cbn [b_err b_msgs b_off b_last b_late concm].
+  assert (Hm : msr_read decomp (S f) off (bnd_st tl [] j h (-1)) = MErr EShort (st [] 0 h 1 (-1))).
+  { unfold msr_read, bnd_st. cbn [m_empty st]. unfold bind at 1. rewrite read_header_idle'.
+    cbn [read_header_loop stream flat_map]. rewrite Htl. cbn [app]. unfold ztake. rewrite firstn_nil.
+    reflexivity. }
+  rewrite Hm. rewrite (discard_st' decomp). cbn [negb andb m_lrem m_elast st Z.eqb set_b b_off]. unfold lfinal.
+  destruct (off <=? -1); reflexivity.
 Qed.
 
 End Batch.
